@@ -237,11 +237,12 @@ fn main() {
         let core_alpha = [V(RVar::Major), V(RVar::Minor), V(RVar::Patch), V(RVar::Epoch), Str("x".into()), V(RVar::Distance)];
         let extra_alpha = [V(RVar::Epoch), V(RVar::PreRelease), V(RVar::Post), V(RVar::Dev), V(RVar::Minor), Str("x".into())];
         let build_alpha = [Str("b".into()), V(RVar::Major), V(RVar::Dev), V(RVar::Ts("YYYY".into())), V(RVar::Ts("bad".into())), V(RVar::BumpedBranch)];
-        let (lc, le, lb) = if quick { (4, 4, 2) } else { (5, 5, 3) };
+        let (lc, le, lb) = if quick { (4, 4, 2) } else { (6, 6, 4) };
         for c in seqs(&core_alpha, lc) { rule_schemas.push(RSchema { core: c, extra_core: vec![V(RVar::PreRelease)], build: vec![Str("b".into())] }); }
         for e in seqs(&extra_alpha, le) { rule_schemas.push(RSchema { core: vec![V(RVar::Major), V(RVar::Patch)], extra_core: e, build: vec![] }); }
         for b in seqs(&build_alpha, lb) { rule_schemas.push(RSchema { core: vec![V(RVar::Minor)], extra_core: vec![V(RVar::Dev), V(RVar::Epoch)], build: b }); }
-        for c in seqs(&core_alpha, 2) { for e in seqs(&extra_alpha, 2) { for b in seqs(&build_alpha, 1) { rule_schemas.push(RSchema { core: c.clone(), extra_core: e.clone(), build: b }); } } }
+        let (xc, xe, xb) = if quick { (2, 2, 1) } else { (3, 3, 1) };
+        for c in seqs(&core_alpha, xc) { for e in seqs(&extra_alpha, xe) { for b in seqs(&build_alpha, xb) { rule_schemas.push(RSchema { core: c.clone(), extra_core: e.clone(), build: b }); } } }
         rule_schemas.push(RSchema { core: vec![], extra_core: vec![], build: vec![UInt(1)] });
         rule_schemas.push(RSchema { core: vec![Str("".into())], ..Default::default() });
     }
@@ -260,6 +261,18 @@ fn main() {
             if let Ok(s) = String::from_utf8(del) { mutants.push(s); }
             for &c in subs { if b[i] != c { let mut m = b.to_vec(); m[i] = c; if let Ok(s) = String::from_utf8(m) { mutants.push(s); } } }
         }
+    }
+    if !quick {
+        // deviation 2: every pair of single-byte edits (deletion or substitution by one of 4 symbols) on a compact document
+        let small = "(schema:(core:[var(Major),var(Minor)],extra_core:[var(Dev)],build:[str(\"b\")]),vars:(major:Some(1),minor:Some(2),dev:Some(3)))";
+        let b = small.as_bytes();
+        let edits: &[Option<u8>] = &[None, Some(b'('), Some(b','), Some(b'"'), Some(b'x')];
+        for i in 0..b.len() { for j in (i + 1)..b.len() { for ei in edits { for ej in edits {
+            let mut m = b.to_vec();
+            match ej { None => { m.remove(j); } Some(c) => { if m[j] == *c { continue; } m[j] = *c; } }
+            match ei { None => { m.remove(i); } Some(c) => { if m[i] == *c { continue; } m[i] = *c; } }
+            if let Ok(s) = String::from_utf8(m) { mutants.push(s); }
+        }}}}
     }
     for garbage in ["", " ", "1.2.3", "{}", "()", "(schema:(),vars:())", "null", "(schema:(core:[var(Major)],extra_core:[],build:[]))", "(vars:(major:Some(1)))", "\u{0}", "((((((((((((((((((((", "(schema:(core:[var(Major)],extra_core:[],build:[]),vars:(major:Some(-1)))", "(schema:(core:[var(Major)],extra_core:[],build:[]),vars:(major:Some(18446744073709551616)))"] { mutants.push(garbage.to_string()); }
     let s4 = mutants.par_iter().map(|m| {
@@ -304,7 +317,7 @@ fn main() {
     cov.evaluations = cov.transitions;
     cov.traces_validated = cov.transitions;
     cov.distinct_nontrivial = objects.len() as u64 + all.get("mutants_accepted") + all.get("invalid_schema_refused");
-    cov.rule = format!("(a) {} objects: each string variable over {} nasty strings, each numeric variable over [0,1,2^63,2^64-1], custom over {} JSON shapes, under 22 presets + 3 custom schemas, plus nasty text inside schema literals{}: parse(emit(z))==z and byte-identical re-emission; (a2) {} pipe jobs (version and flow, sources none/stdin, overrides/bumps incl. epoch 0) x 5 renderings: direct == piped; (c) {} structurally generated schemas (every variable in every section, all orders/duplications of Major/Minor/Patch, all pairs of secondaries, timestamp patterns, empty; every component sequence up to length 4/4/2 (thorough 5/5/3) over a 6-symbol alphabet per section with the other sections valid, and the full product of sequences of length <=2 x <=2 x <=1 across sections) on 4 entry paths: accepted iff R-SCH valid; (b) {} document mutants (byte deletions/substitutions, stride {stride}) + garbage: no panic, rendered only if parseable with a valid schema", objects.len(), strs.len(), customs.len(), if quick { "" } else { " and all (string, custom) pairs" }, pipe_jobs.len(), rule_schemas.len(), mutants.len());
+    cov.rule = format!("(a) {} objects: each string variable over {} nasty strings, each numeric variable over [0,1,2^63,2^64-1], custom over {} JSON shapes, under 22 presets + 3 custom schemas, plus nasty text inside schema literals{}: parse(emit(z))==z and byte-identical re-emission; (a2) {} pipe jobs (version and flow, sources none/stdin, overrides/bumps incl. epoch 0) x 5 renderings: direct == piped; (c) {} structurally generated schemas (every variable in every section, all orders/duplications of Major/Minor/Patch, all pairs of secondaries, timestamp patterns, empty; every component sequence up to length 4/4/2 (thorough 6/6/4) over a 6-symbol alphabet per section with the other sections valid, and the full product of sequences of length <=2 x <=2 x <=1 (thorough <=3 x <=3 x <=1) across sections) on 4 entry paths: accepted iff R-SCH valid; (b) {} document mutants (byte deletions/substitutions, stride {stride}; thorough adds every pair of single-byte edits on a compact document) + garbage: no panic, rendered only if parseable with a valid schema", objects.len(), strs.len(), customs.len(), if quick { "" } else { " and all (string, custom) pairs" }, pipe_jobs.len(), rule_schemas.len(), mutants.len());
     cov.exhaustive = true;
     cov.samples = vec![json!(objects[7].0), json!({"cmd": pipe_jobs[3].0, "args": pipe_jobs[3].1}), json!(sch::ron_schema(&rule_schemas[40])), json!(truncate(&mutants[100], 100))];
     cov.set("clause_counts", all.to_json());
